@@ -44,9 +44,9 @@ type step struct {
 	Ms      int               `json:"ms"`
 	Group   string            `json:"group"`
 	ID      string            `json:"id"`
-	Reqs    []step            `json:"reqs"` // burst: requests sent at once, not awaited before the kill
+	Reqs    []step            `json:"reqs"`  // burst: requests sent at once, not awaited before the kill
 	Until   map[string]any    `json:"until"` // rows / received: repeat until this is there (or ms have passed); what is then seen is reported
-	Grow    int64             `json:"grow"` // burst: kill as soon as the database file has grown by this many bytes (0: after ms)
+	Grow    int64             `json:"grow"`  // burst: kill as soon as the database file has grown by this many bytes (0: after ms)
 }
 
 // stepObs is the envelope of every step observation; all keys are always present.
@@ -317,16 +317,20 @@ func runScenario(idx int, sc *scenario, bin, dir string) *bytes.Buffer {
 			fmt.Fprintf(os.Stderr, "procx: %s: ports: %v\n", sc.Sid, err)
 			continue
 		}
-		if err := srv.start(); err != nil {
+		if err := srv.startChecked(); err != nil {
 			fmt.Fprintf(os.Stderr, "procx: %s: start: %v\n", sc.Sid, err)
 			continue
 		}
-		if srv.waitReady(20 * time.Second) {
+		if srv.waitReady(20*time.Second) && srv.allListening(10*time.Second) {
 			break
 		}
 		if srv.running() {
 			break // running but mute: the steps will show it
 		}
+		if !srv.bindFailed(0) {
+			break // it ended for a reason of its own
+		}
+		_ = os.WriteFile(logPath, nil, 0o644) // (the lost race for a port is machinery: not part of the record)
 	}
 	srv.ownExit, srv.ownDied = 0, false
 	if !srv.running() && !sc.Cold {
